@@ -175,7 +175,7 @@ fn op_kind(op: &Op) -> &'static str {
 }
 
 pub fn run(run: &mut Run) {
-    run.rule = "random operation histories (length <= 200, all nine mutators incl. bulk inserts with repeated indices) on tiny shapes 1..6 x 1..6 (plus a few up to 12x12); after EVERY operation the whole query API is compared with a BTreeSet model; a history is non-trivial if it executes at least one toggle-off, remove of a present entry or clear/set on a non-empty line; distinct = digest of (shape, operation list)".into();
+    run.rule = "random operation histories (length <= 200, all nine mutators incl. bulk inserts with repeated indices) on tiny shapes 1..6 x 1..6 (every 16th up to 12x12, every 256th 20..48 x 20..48); after EVERY operation the whole query API is compared with a BTreeSet model; a history is non-trivial if it executes at least one toggle-off, remove of a present entry or clear/set on a non-empty line; distinct = digest of (shape, operation list)".into();
     run.assumptions = vec![
         "iterator contents are compared as sets (the statement does not fix list order)".into(),
         "out-of-range indices are outside the domain (they index out of bounds by contract)".into(),
@@ -184,8 +184,9 @@ pub fn run(run: &mut Run) {
     let n = if miri { 24 } else { run.tier.n(120_000, 4_000_000) };
     run.sub("history", n, |l, idx, rng| {
         let big = idx % 16 == 15;
-        let rows = if big { rng.range(1, 12) } else { rng.range(1, 6) };
-        let cols = if big { rng.range(1, 12) } else { rng.range(1, 6) };
+        let huge = idx % 256 == 255 && !cfg!(miri);
+        let rows = if huge { rng.range(20, 48) } else if big { rng.range(1, 12) } else { rng.range(1, 6) };
+        let cols = if huge { rng.range(20, 48) } else if big { rng.range(1, 12) } else { rng.range(1, 6) };
         let len = if cfg!(miri) { rng.range(1, 25) } else { rng.range(1, 200) };
         let mut h = SparseMatrix::new(rows, cols);
         let mut m = Model::new();
